@@ -51,6 +51,7 @@ def gen(tape, cfg):
     s0.append(("ret", None))
     fail = tape.chance(20, 100, "collector-fails")
     pol = {"retry": None, "wait": ("none",) if tape.chance(60, 100, "nw") else ("fixed", 1), "stop": ("attempt", 3)} if fail else None
+    wait_after = tape.chance(25, 100, "wait-after-collect?")
     cs = {}
     for t in types:
         sc = []
@@ -60,6 +61,9 @@ def gen(tape, cfg):
         sc.append(("collect", exp, None))
         if fail:
             sc.append(("fail", "ValueError", 1))
+        if wait_after:
+            # the invocation that got the complete set then waits for an answer nobody sends; the wait times out and the body goes on
+            sc.append(("wait", "Resp0", True, 2, "w", False, "continue"))
         if tape.chance(50, 100, "post-work"):
             sc.append(("work",))
         sc.append(("ret", None))
@@ -72,7 +76,7 @@ def gen(tape, cfg):
         {"name": "zfin", "accepts": ["Fin"], "workers": 1, "sync": False, "retry": None, "role": "step",
          "scripts": {"Fin": [("ret", "stop")]}, "returns": [], "stop": True},
     ]
-    return {"steps": steps, "types": types, "timeout": None, "driver": "finish", "disable_validation": False, "expected": exp}
+    return {"steps": steps, "types": types, "timeout": None, "driver": "finish", "disable_validation": False, "expected": exp, "wait_after": wait_after}
 
 
 def setup(world, spec):
